@@ -31,6 +31,8 @@ def topo_orders(stops, arcs, limit=6):
 def gen_model(rng, size="small", feats=None):
     n = rng.randint(2, 7 if size == "small" else 14)
     nv = rng.randint(1, 3 if size == "small" else 5)
+    if size == "large":
+        n, nv = rng.randint(30, 45), rng.randint(3, 5)
     p = lambda x: rng.random() < x  # noqa: E731
     F = {
         "capacity": p(0.6), "windows": p(0.5), "maxwait_stop": p(0.35), "maxwait_veh": p(0.3),
@@ -222,6 +224,18 @@ def gen_model(rng, size="small", feats=None):
             if f in ("arrival", "start", "end") and not F["windows"] and vehicles[0]["start_time"] is None:
                 mx -= T0
             user.append((f, mx, veh, rng.random() < 0.3))
+        # a two-level constraint: one object with a per-stop and a per-vehicle exact check
+        # (registered as ONE constraint by the harness: "paired" flag on the stop-level line)
+        if rng.random() < 0.4:
+            tmp = rng.random() < 0.3
+            f1, f2 = rng.choice(["pos", "wait", "cumtravel"]), rng.choice(["pos", "cumtravel", "end"])
+            mxs = {"pos": rng.randint(1, 4), "wait": rng.choice([0, 300, 1800]), "cumtravel": rng.choice([600, 1500, 4000]),
+                   "end": T0 + rng.choice([3600, 7200, 14400])}
+            m2 = mxs[f2] if f2 != "pos" else rng.randint(2, 5)
+            if f2 == "end" and not F["windows"] and vehicles[0]["start_time"] is None:
+                m2 -= T0
+            user.append((f1, mxs[f1], False, tmp, True))
+            user.append((f2, m2, True, tmp))
     return {"groups": groups, "user": user, "stops": stops, "vehicles": vehicles, "units": units, "arcs": arcs, "dur": dur, "dist": dist,
             "nres": nres, "res_mode": res_mode, "opts": opts, "features": {k: bool(v) for k, v in F.items()}}
 
@@ -328,7 +342,7 @@ def opt_str(x):
 def to_lines(m):
     o = m["opts"]
     b = lambda x: "1" if x else "0"  # noqa: E731
-    ls = ["user %s %d %s %s" % (f, mx, b(v), b(t)) for (f, mx, v, t) in m.get("user", [])] + ["nres %d" % m["nres"],
+    ls = ["user %s %d %s %s%s" % (u[0], u[1], b(u[2]), b(u[3]), " 1" if len(u) > 4 and u[4] else "") for u in m.get("user", [])] + ["nres %d" % m["nres"],
           "opt " + " ".join([b(o[k]) for k in ["dis_capacity", "dis_distance", "dis_max_duration", "dis_end_time",
                                                "dis_windows", "dis_max_stops", "dis_max_wait_stop", "dis_max_wait_vehicle",
                                                "dis_attributes", "dis_start_time", "dis_durations"]] +
